@@ -245,7 +245,9 @@ _R13 = {
     "C03": " Round 13: the frameable-response predicate keeps its substring tests (C14.T borrowed).",
     "C05": " Round 13: an interim 1xx does not use up the header latch of any wrapper (C03.X borrowed).",
     "C06": " Round 13: the serialiser stops waiting for the published response only on Done of the request's own context.",
-    "C07": " Round 13: no path from a failed read of the backend websocket leads back to the read.",
+    "C07": " Round 13: no path from a failed read of the backend websocket leads back to the read; a back-off wait on a drained, re-armed timer is recognised (armedTimerWait).",
+    "C08": " Round 13 / N: the back-off wait may be a receive from one reused timer when an arming (NewTimer or Reset, same duration) lies on every path to the receive and the receive on every path between two armings.",
+    "C19": " Thorough tier of round 13: the blob field of the entity built in newStoredRequest/newStoredResponse is only ever what newBlob returned in that call.",
     "C11": " Round 13: the close frame goes through the same FIFO as the data (C12.L borrowed).",
     "C15": " Round 13: no deadline-bound AfterFunc hook or timer callback closes a bridged connection (also C16.A); WaitGroup pairing through a go-runner helper.",
     "C16": " Round 13: no deadline-bound AfterFunc hook or timer callback closes a bridged connection.",
